@@ -75,7 +75,10 @@ func c14Gen(seed uint64, run int, tier string) *Case {
 				if r.Pct(12) {
 					// a further open of the same file (now and then by way of a symbolic link): what one handle
 					// writes, the others must read
-					ops = append(ops, Op{K: "reopen", A: []int64{int64(f), int64(r.Intn(2)), int64(r.Pick(0, 2, 2, 1|16, 2|16))}}) // OREAD, ORDWR, or with OTRUNC: the file is emptied by the open
+					ops = append(ops, Op{K: "reopen", A: []int64{int64(f), int64(r.Pick(0, 1, 2, 2)), int64(r.Pick(0, 2, 2, 1|16, 2|16))}}) // OREAD, ORDWR, or with OTRUNC: the file is emptied by the open
+				}
+				if r.Pct(6) {
+					ops = append(ops, Op{K: "closeh", A: []int64{int64(f), int64(r.Intn(8))}}) // one of the further handles is closed; the others go on
 				}
 				ops = append(ops, Op{K: kind, A: []int64{int64(f), int64(off), int64(cnt), int64(r.Intn(4))}})
 			}
@@ -177,6 +180,48 @@ func c14Caller(x *Ctx, u *UfsSys, clnt *go9p.Clnt, ci int, ops []Op) {
 		}
 		f := files[int(op.a(0))]
 		if f == nil {
+			continue
+		}
+		if op.K == "closeh" {
+			if len(f.hs) > 1 {
+				i := 1 + int(op.a(1))%(len(f.hs)-1)
+				f.hs[i].file.Close()
+				f.hs = append(f.hs[:i:i], f.hs[i+1:]...)
+				x.Probe("one-of-several-handles-closed")
+			}
+			continue
+		}
+		if op.K == "reopen" && op.a(1) == 2 {
+			// two more handles made the other way round: walk to the file, clone the fid with a walk of no names,
+			// then open both (the clone for reading and writing, the original as the case says)
+			osMark = len(x.S.OSLog)
+			w, err := clnt.FWalk(f.name)
+			if err != nil {
+				viol("e1-open", "FWalk(%q) failed: %v", f.name, err)
+				continue
+			}
+			nf := clnt.FidAlloc()
+			if _, err := clnt.Walk(w, nf, nil); err != nil {
+				viol("e1-open", "cloning the fid of %q failed: %v", f.name, err)
+				continue
+			}
+			mode := uint8(op.a(2)) &^ 16
+			first, second := w, nf
+			if mode == 0 {
+				first, second = nf, w // the read-only open comes last
+			}
+			for _, g := range []*go9p.Fid{first, second} {
+				m := uint8(2)
+				if g == w {
+					m = mode
+				}
+				if err := clnt.Open(g, m); err != nil {
+					viol("e1-open", "opening a fid of %q made by walk (mode %d) failed: %v", f.name, m, err)
+					continue
+				}
+				f.hs = append(f.hs, &c14Handle{fid: g, file: &go9p.File{Fid: g}})
+			}
+			x.Probe("file-open-through-a-cloned-fid")
 			continue
 		}
 		if op.K == "reopen" {
